@@ -55,6 +55,21 @@ CLAIMS = {
         text="Static decision of the mapping phase -> behaviour for every kind, of the plumbing of the phase and per-node phase table from solve() to every law, of phase independence (no state carried between phase iterations except append-only accumulators), and of the phase-list / unknown-phase prologue.",
         note=TB + "Inner loops are assumed to execute at least once in the loop-carried analysis (a carry that exists only on a zero-trip inner loop is missed, never invented). Not decided: numeric values per phase.",
         ref="DESIGN.md section 4 C06"),
+    "C14": dict(
+        technique="path summaries of the edit methods (helpers inlined, loops as one symbolic iteration, branch decisions ordered with effects); check-dominates-mutation obligations written as reference code and discharged by propositional implication over canonical atoms",
+        text="Static decision that on every accepting path of add_source / add_comp / change_comp / del_comp each conjunct of the well-formedness invariant is re-established by a check taken before the first modification, for all inputs and hence by induction for all edit histories; plus uniform child-type tables and single-parent re-linking.",
+        note=TB + "The obligation table (sa/editrules.py) is hand-written from the invariant, one reason per line; it is not derived. The invariant is assumed at entry of each method (induction hypothesis).",
+        ref="DESIGN.md section 4 C14"),
+    "C15": dict(
+        technique="effect-order analysis on path summaries: no raise / may-raise registry deletion after the first graph or registry modification; key-presence typestate; purity of validation helpers",
+        text="Static decision, on every path of the six edit / configuration methods, that a path which raises has not modified the graph, a registry or a parameter before, that registry deletions after a modification have an established key, and that the validation helpers are effect-free.",
+        note=TB + "warnings.warn is exempt (raises only under a user-installed error filter). Not decided: exceptions thrown by rustworkx for reasons the repository's own checks do not cover; subscript loads with an absent key.",
+        ref="DESIGN.md section 4 C15"),
+    "C16": dict(
+        technique="registry lock-step and link/registry pairing on path summaries; order-provenance; loop-carried dependence; cache-refresh must-precede rule; column-routing tables of the configuration reports",
+        text="Static decision of the bookkeeping that makes results history-independent: name registries move in lock-step, the input-order registry holds indices and is updated with every link, index-hole-safe vector sizes, nothing carried from row to row, caches rebuilt unconditionally before every analysis, and each parameter / limit / per-phase value routed to the column that names it.",
+        note=TB + "Not decided: that every report 'succeeds' for every history in the presence of library exceptions; the Domain column of phases() (not part of the statement) is still derived from the topological order.",
+        ref="DESIGN.md section 4 C16"),
     "C20": dict(
         category="proof",
         technique="exact rational normal forms of straight-line functions; identities discharged by cross-multiplication",
